@@ -130,7 +130,7 @@ def run(tier):
             n_mut += 1
     # byte-level mutations of the repository's scripts
     corpus = []
-    for f in sorted(glob.glob("/repo/examples/*.ns") + glob.glob("/repo/tests/stress/*.ns")):
+    for f in sorted(glob.glob(common.REPO + "/examples/*.ns") + glob.glob(common.REPO + "/tests/stress/*.ns")):
         try:
             corpus.append(open(f, encoding="utf-8").read())
         except Exception:
